@@ -318,6 +318,7 @@ def finish_check(prop, tier, seed, runs, t0, rule, min_events, assumptions, extr
     notes = []
     distinct = 0
     evaluations = 0
+    client_ops = 0
     viols = []  # (attributed prop, key, detail, run)
     inconclusive = []
     failures = []
@@ -336,7 +337,8 @@ def finish_check(prop, tier, seed, runs, t0, rule, min_events, assumptions, extr
         for k, v in res.get("hook_delays", {}).items():
             hook_delays[k] = hook_delays.get(k, 0) + v
         distinct += res.get("distinct", 0)
-        evaluations += res.get("progress", 0)
+        evaluations += res.get("cases", 0) or 0
+        client_ops += res.get("progress", 0)
         for s in res.get("samples", [])[:2]:
             if len(samples) < 6:
                 samples.append(dict(run=r.describe(), case=s))
@@ -378,7 +380,7 @@ def finish_check(prop, tier, seed, runs, t0, rule, min_events, assumptions, extr
     cov = dict(evaluations=int(evaluations), distinct_nontrivial=int(distinct), rule=rule, samples=samples or ["(no sample recorded)"],
                counters=counters, hook_hits=hook_hits, hook_delays_injected=hook_delays,
                runs=[dict(r.describe(), outcome=r.outcome, wall_s=round(getattr(r, "wall", 0), 2)) for r in runs],
-               process_runs=len(runs), notes=notes,
+               process_runs=len(runs), client_operations=int(client_ops), notes=notes,
                tsan_library_internal_reports_not_judged=tsan_internal,
                known_findings_observed=[dict(property=a, key=b) for (a, b) in known_hits],
                inconclusive_runs=len(inconclusive))
